@@ -542,6 +542,103 @@ def c01_13(ctx):
     return out
 
 
+def c01_15(ctx):
+    """RFC 6979 int2octets / bits2octets: the digest and the secret enter the HMAC as fixed 32-octet strings.  A width computed
+    from the value (`bit_length`) drops leading zero octets: for a digest below 2^248 the nonce -- and so (r, s) -- is not the
+    RFC 6979 one."""
+    out = []
+    for repo, label in ((ctx.repo, "pecc"), (ctx.repo_c, "cecc")):
+        spec = "%s:PrivateKey.deterministic_k" % label
+        mod, fn = repo.func(spec)
+        ctx.note_fn(mod, fn)
+        f = Folder(repo, mod.name)
+        sites = [(n, c) for n, c in rl.find_calls(fn, "int_to_big_endian") if len(c.args) == 2]
+        if not sites:
+            out.append(ctx.err(spec, "no int_to_big_endian(value, width) site found", fn, mod))
+            continue
+        for n, c in sites:
+            w = f.fold(expand(fn, n.id, c.args[1]))
+            what = ast.unparse(c.args[0])
+            if w == 32:
+                out.append(ctx.ok(spec, "`%s` enters the HMAC as 32 octets" % what, c, mod, key="octets32:%s" % what))
+            elif isinstance(w, int):
+                out.append(ctx.bad(spec, "`%s` is serialised to %d octets, RFC 6979 uses qlen/8 = 32" % (what, w), c, mod, key="octets32:%s" % what))
+            elif any(isinstance(x, ast.Call) and call_name(x) in ("bit_length", "len") for x in ast.walk(expand(fn, n.id, c.args[1]))):
+                out.append(ctx.bad(spec, "`%s` is serialised with a width computed from its value (`%s`): a digest with leading zero octets (below 2^248, about 1 in 256) yields "
+                                         "another HMAC input, so the signature is valid but not the RFC 6979 signature" % (what, ast.unparse(c.args[1])), c, mod,
+                                   key="octets32:%s" % what))
+            else:
+                out.append(ctx.err(spec, "width `%s` of `%s` not foldable" % (ast.unparse(c.args[1]), what), c, mod))
+    return out
+
+
+def c01_16(ctx):
+    """Signature keeps r and s exactly as given: verify's range test must see the caller's numbers.  A constructor that reduces
+    them (mod n) makes r+n / s+n aliases of a valid signature verify"""
+    spec = "pecc:Signature.__init__"
+    mod, fn = rl.get(ctx, spec)
+    ps = param_names(fn)
+    out = []
+    for st in ast.walk(fn):
+        if isinstance(st, ast.Assign) and len(st.targets) == 1 and isinstance(st.targets[0], ast.Attribute) and dotted(st.targets[0].value) == "self" \
+                and st.targets[0].attr in ("r", "s"):
+            a = st.targets[0].attr
+            v = st.value
+            if isinstance(v, ast.Name) and v.id in ps:
+                out.append(ctx.ok(spec, "self.%s is the argument itself" % a, st, mod, key="as-given:" + a))
+            elif isinstance(v, ast.BinOp) and isinstance(v.op, (ast.Mod, ast.BitAnd)):
+                out.append(ctx.bad(spec, "`%s` reduces the argument: Signature(r, s + N) becomes a copy of Signature(r, s), so verify's range test [1, n-1] can no longer "
+                                         "reject r or s >= n" % ast.unparse(st), st, mod, key="as-given:" + a))
+            else:
+                out.append(ctx.err(spec, "`%s`: stored value not recognised" % ast.unparse(st), st, mod))
+    if len(out) < 2:
+        raise AnalysisError("Signature.__init__: stores of self.r / self.s not found")
+    return out
+
+
+def c01_17(ctx):
+    """verify rejects only for the reasons the ECDSA verification algorithm has: r or s out of range, u*G + v*P = infinity, x mod n
+    != r.  A rejection decided from the two partial products before they are added (equal x coordinates) also rejects the
+    doubling case u*G = v*P, which is a valid signature"""
+    spec = "pecc:S256Point.verify"
+    mod, fn = rl.get(ctx, spec)
+    cfg = cfg_of(fn)
+    sig = param_names(fn)[2]
+    out = []
+    for n in cfg.tests():
+        t = n.ast
+        leads_false = any(cfg.nodes[b].kind == "return" and cfg.nodes[b].ast is not None and isinstance(cfg.nodes[b].ast.value, ast.Constant)
+                          and cfg.nodes[b].ast.value.value is False for b, l in cfg.succ[n.id])
+        if not leads_false:
+            continue
+        txt = ast.unparse(t)
+        xtxt = ast.unparse(expand(fn, n.id, t, depth=4))
+        if ("%s.r" % sig) in xtxt or ("%s.s" % sig) in xtxt:
+            if _is_r_compare(fn, n.id, t, sig):
+                out.append(ctx.ok(spec, "rejects on the final comparison `%s`" % txt, t, mod, key="reject:equation"))
+            else:
+                out.append(ctx.ok(spec, "rejects on the range test `%s`" % txt, t, mod, key="reject:range"))
+            continue
+        if isinstance(t, ast.Compare) and len(t.ops) == 1 and isinstance(t.ops[0], (ast.Is, ast.Eq, ast.IsNot, ast.NotEq)) and isinstance(t.comparators[0], ast.Constant) \
+                and t.comparators[0].value is None:
+            ex = expand(fn, n.id, t.left, depth=6)
+            if any(isinstance(b, ast.BinOp) and isinstance(b.op, ast.Add) for b in ast.walk(ex)):
+                out.append(ctx.ok(spec, "rejects when the sum u*G + v*P is the point at infinity (`%s`)" % txt, t, mod, key="reject:infinity"))
+                continue
+        if isinstance(t, ast.Compare) and len(t.ops) == 1 and isinstance(t.ops[0], (ast.Eq, ast.NotEq)):
+            l, r = expand(fn, n.id, t.left, depth=6), expand(fn, n.id, t.comparators[0], depth=6)
+            both_products = all(any(isinstance(b, ast.BinOp) and isinstance(b.op, ast.Mult) for b in ast.walk(e)) and
+                                not any(isinstance(b, ast.BinOp) and isinstance(b.op, ast.Add) for b in ast.walk(e)) for e in (l, r))
+            if both_products:
+                out.append(ctx.bad(spec, "rejects when `%s`: equal x coordinates of u*G and v*P cover not only opposite points (sum = infinity) but also u*G = v*P "
+                                         "(doubling), where the tuple can satisfy the ECDSA equation -- e.g. key d, z = r*d, s = 2*r*d/k" % txt, t, mod, key="reject:summands"))
+                continue
+        out.append(ctx.err(spec, "rejecting test `%s` is not one of: range of r/s, infinity of the sum, final comparison" % txt, t, mod))
+    if not out:
+        raise AnalysisError("verify: no rejecting test found")
+    return out
+
+
 def c01_14(ctx):
     """MEMO: no verdict / product is remembered under a key that leaves out part of (key, digest, r, s)"""
     from sa.memo import memo_obligation
@@ -563,5 +660,8 @@ OBLIGATIONS = [
     ("C01.12", "RANGE reader domain", c01_12),
     ("C01.13", "GUARD verdict source", c01_13),
     ("C01.14", "MEMO", c01_14),
+    ("C01.15", "WIDTH octets", c01_15),
+    ("C01.16", "DATAFLOW as given", c01_16),
+    ("C01.17", "REJECT-SET", c01_17),
 ]
 FLOORS = {"C01.1": 2, "C01.4": 2, "C01.5": 2, "C01.8": 8, "C01.9": 5, "C01.10": 4}
